@@ -12,7 +12,9 @@ CHECKS = {
         design_ref="DESIGN.md §5 C01, §2 G-graph, §3",
         note="Trusts the reference evaluator vf/graphs.py:evaluate and that the grammar's computations are "
              "chunking-invariant by definition; threads are pre-empted at synchronisation points only; numba "
-             "helpers run un-jitted (same source); process pools not exercised.",
+             "helpers run un-jitted (same source); strax's multiprocessing path (inlined plugins, forked savers) runs "
+             "behind a simulated process boundary (pickled job on a copy, pickled result) on controlled threads - real "
+             "worker processes, worker death and allow_shm are not exercised.",
         technique="property-based testing (Hypothesis) with reference model + controlled-scheduler schedule fuzzing",
     ),
     "C02": dict(
@@ -24,7 +26,8 @@ CHECKS = {
              "orders and across child interpreters with other PYTHONHASHSEEDs.",
         design_ref="DESIGN.md §5 C02",
         note="Option values that strax cannot serialise (np scalars / arrays / immutabledict in tracked options) are "
-             "skipped and counted; ambiguous value pairs (1 / 1.0 / True) accept both outcomes.",
+             "skipped and counted; True / 1 / 1.0 are different values (the harness plugins compute different rows for them); "
+             "list = tuple = array, dict = immutabledict, numpy = python scalar of one kind accept both outcomes.",
         technique="model-based (stateful) property testing with reference lineage model + cross-process differential",
     ),
     "C14": dict(
@@ -92,7 +95,8 @@ CHECKS = {
              "run) x {OSError once, OSError sticky, process death before / after (forked child, os._exit)}; observer "
              "= fresh Context without faults: everything reported stored loads completely and equals the whole-run "
              "reference, a call that returned normally stored what the fault-free run stores, and the identical retry "
-             "succeeds without cleanup.",
+             "succeeds without cleanup. Both processors, serial and thread-pool saving, and savers inlined (forked) "
+             "into simulated pool-worker processes.",
         design_ref="DESIGN.md §5 C04, §4",
         note="Faults are injected at Python-level os / shutil / open / write calls under the storage directory; "
              "process death is os._exit in a forked child; DataDirectory only; quick tier takes a spread of indices "
@@ -185,7 +189,8 @@ CHECKS = {
              "plugin, k-th chunk read of each loader, k-th chunk write of each saver - synchronous and on a pool "
              "worker -, consumer abandoning after k chunks) is executed with a token-carrying exception injected "
              "there (a spread subset in the quick tier, all positions in all_positions / thorough); threaded runs "
-             "under generated schedules of the controlled scheduler. Oracle: caller receives the injected exception, "
+             "under generated schedules of the controlled scheduler, incl. strax's multiprocessing path behind a "
+             "simulated process boundary. Oracle: caller receives the injected exception, "
              "no hang (virtual timeout), no deadlock, no surviving thread.",
         design_ref="DESIGN.md §5 C06, §3",
         note="Failures are exceptions raised at Python-level call sites (plugin compute, FileSytemBackend._read_chunk, "
